@@ -31,6 +31,7 @@ class NativeStack(object):
         self.cmemo = {}
         self.model = None
         self.checks = 0
+        self.model_order = "first"     # or "last": the model kept is the last one in product order
 
     def push(self):
         self.levels.append([])
@@ -57,7 +58,8 @@ class NativeStack(object):
 
     def check(self, extra=()):
         """True/False; stores a model (dict name->(sort,value)) when satisfiable.
-        Enumeration order is deterministic: the first model in product order is kept."""
+        Enumeration order is deterministic: the first model in product order is kept (model_order
+        'last': the pools are walked downwards, so the last one is)."""
         self.checks += 1
         fs = self.live() + list(extra)
         syms = {}
@@ -67,6 +69,8 @@ class NativeStack(object):
             fns.append(compile_term(f, self.cmemo)[1])
         names = sorted(syms)
         pools = [sort_values(syms[n], self.dom) for n in names]
+        if self.model_order == "last":
+            pools = [tuple(reversed(tuple(p))) for p in pools]
         for vals in product(*pools):
             I = dict(zip(names, vals))
             ok = True
